@@ -2,7 +2,10 @@
 
 mod common;
 mod e1;
+mod e2;
+mod e2_link;
 mod e3;
+mod sim;
 mod rng;
 mod scenarios;
 mod supervisor;
